@@ -168,6 +168,110 @@ def target_type_for_enum():
     return pyvc.collect(paths, "_cpp_integer_type_for_enum"), sum(1 for p in paths if p.covered)
 
 
-TARGETS = {"can_fit": target_can_fit, "_integer_bounds_errors": target_integer_bounds_errors,
+def target_render_builtin_operation():
+    """header_generator._render_builtin_operation: the C++ call it renders names, as IntermediateT, a type whose range
+    contains the inferred bounds of the operation's result AND of every integer operand (so the runtime's
+    static_cast<IntermediateT>(operand) and the arithmetic in IntermediateT are exact: the `requires` of
+    contracts/cpp_arith.py); ResultT / ArgTs are the basic types of the expression / the operands, in order."""
+    cons, hg, error, ir_util = _m()
+    ir_data = importlib.import_module("compiler.util.ir_data")
+    eng = pyvc.Engine()
+    eng.inline_fn(hg._cpp_integer_type_for_range, "compiler.back_end.cpp.header_generator._cpp_integer_type_for_range")
+    eng.contract(hg._render_expression, lambda interp, e, *a, **k: SRec("Rendered", {"rendered": "<%s>" % e.f["tag"]}), "_render_expression")
+    # operands of one operation that are enums are of one enum type (type_check), hence one C++ type
+    tname = lambda e: "EnumT" if e.f["type"].f["which_type"] == "enumeration" else "T(%s)" % e.f["tag"]
+    eng.contract(hg._cpp_basic_type_for_expression, lambda interp, e, ir: tname(e), "_cpp_basic_type_for_expression")
+    eng.contract(hg._builtin_function_name, lambda interp, f: "Op", "_builtin_function_name")
+    FM = ir_data.FunctionMapping
+
+    def harness(c):
+        shape = c.choice("shape", ["int<-int,int", "int<-bool,int,int", "int<-int", "int<-int,int,int", "bool<-int,int", "bool<-bool,bool", "bool<-enum,enum", "enum<-bool,enum,enum"])
+        res, argk = shape.split("<-")
+        argk = argk.split(",")
+        bounds_ = []
+
+        def mk(tag, kind):
+            f = {"tag": tag}
+            if kind == "int":
+                lo, hi = z3.Int(tag + "_min"), z3.Int(tag + "_max")
+                c.assume(lo <= hi)
+                bounds_.append((lo, hi))
+                f["type"] = SRec("ExpressionType", {"which_type": "integer", "integer": SRec("IntegerType", {"minimum_value": SNumStr(lo), "maximum_value": SNumStr(hi)})})
+            else:
+                f["type"] = SRec("ExpressionType", {"which_type": {"bool": "boolean", "enum": "enumeration"}[kind]})
+            return SRec("Expression", f)
+        args = [mk("a%d" % i, kd) for i, kd in enumerate(argk)]
+        e = mk("e", res)
+        e.f["function"] = SRec("Function", {"function": FM.ADDITION, "args": args})
+        # precondition = what the 64-bit gate established (contracts above): all integer bounds fit one 64-bit type
+        if bounds_:
+            c.assume(z3.Or(z3.And([fits(lo, hi, "::std::int64_t") for lo, hi in bounds_]), z3.And([fits(lo, hi, "::std::uint64_t") for lo, hi in bounds_])))
+        c.covered = True
+        st, got = pyvc.run_body(c, "compiler.back_end.cpp.header_generator._render_builtin_operation", [e, SRec("EmbossIr", {}), SRec("FieldRenderer", {}), None])
+        import re
+        m = re.fullmatch(r"::emboss::support::Op</\*\*/(.*?), (.*?)((?:, [^,>]*)*)>\((.*)\)", got) if isinstance(got, str) else None
+        c.oblige("renders-a-support-call", m is not None, detail=repr(got))
+        if not m:
+            return
+        inter, result_t, arg_ts, rendered = m.group(1), m.group(2), [x for x in m.group(3).split(", ") if x], m.group(4).split(", ")
+        c.oblige("ResultT-is-the-expression's-type", result_t == tname(e), detail=result_t)
+        c.oblige("ArgTs-are-the-operands'-types-in-order", arg_ts == [tname(a) for a in args], detail=str(arg_ts))
+        c.oblige("operands-rendered-in-order", rendered == ["<a%d>" % i for i in range(len(args))], detail=str(rendered))
+        if bounds_:
+            c.oblige("IntermediateT-is-an-integer-type", inter in RANGES, detail=inter)
+            if inter in RANGES:
+                for i, (lo, hi) in enumerate(bounds_):
+                    c.oblige("IntermediateT-holds-the-bounds-of-result-and-every-integer-operand", fits(lo, hi, inter), detail="%s, bounds #%d" % (inter, i))
+        elif "enum" in argk:
+            c.oblige("IntermediateT-is-the-enum-type", inter == "EnumT", detail=inter)
+        else:
+            c.oblige("IntermediateT-is-bool", inter == "bool", detail=inter)
+    paths = eng.explore(harness)
+    return pyvc.collect(paths, "_render_builtin_operation"), sum(1 for p in paths if p.covered)
+
+
+def replay_render_builtin_operation(name, model):
+    """Real front end + back end on witness modules: every rendered arithmetic call names an IntermediateT whose range
+    holds the inferred bounds of the operation's result and operands (read back from the IR)."""
+    import re
+    glue = importlib.import_module("compiler.front_end.glue")
+    hg = _m()[1]
+    from contracts.bounds import _Reader
+    src = ('[$default byte_order: "LittleEndian"]\nstruct Ww:\n  0 [+4]  UInt  a\n  4 [+4]  UInt  b\n  8 [+4]  Int  c\n'
+           '  let total = a + b\n  let diff = a - b\n  let prod = a * 2\n  let mixed = c - 1\n  let pick = a == 0 ? b + 1 : b\n  let most = $max(a, b + 1)\n')
+    ir, debug, errors = glue.parse_emboss_file("w.emb", _Reader({"w.emb": src}))
+    if errors:
+        return {"reproduced": False, "error": "witness module rejected"}
+    header, errs = hg.generate_header(ir)
+    bad = []
+    fields = {f.name.name.text: f for f in ir.module[0].type[0].structure.field}
+
+    def walk(e, out):
+        if e.which_expression == "function":
+            out.append(e)
+            for a in e.function.args:
+                walk(a, out)
+    for fname in ("total", "diff", "prod", "mixed", "pick", "most"):
+        fns = []
+        walk(fields[fname].read_transform, fns)
+        for e in fns:
+            ints = [x for x in [e] + list(e.function.args) if x.type.which_type == "integer"]
+            if not ints:
+                continue
+            lo = min(int(x.type.integer.minimum_value) for x in ints)
+            hi = max(int(x.type.integer.maximum_value) for x in ints)
+            # the rendered call for this operation: find a support call whose ResultT/ArgTs match is overkill; check that SOME
+            # call with an IntermediateT that holds [lo, hi] exists for the operator, and that none with a smaller one was emitted
+            opname = hg._builtin_function_name(e.function.function)
+            inters = set(re.findall(r"::emboss::support::%s</\*\*/(::std::u?int\d+_t)," % opname, header))
+            need = hg._cpp_integer_type_for_range(lo, hi)
+            for t in inters:
+                a, b = RANGES[t]
+                if need is not None and RANGES[need] != (a, b) and not (a <= RANGES[need][0] and RANGES[need][1] <= b) and (lo < a or hi > b):
+                    bad.append({"field": fname, "operator": opname, "bounds": [lo, hi], "IntermediateT_emitted": t})
+    return {"reproduced": bool(bad), "inputs": src, "violations": bad[:4]}
+
+
+TARGETS = {"can_fit": target_can_fit, "_render_builtin_operation": target_render_builtin_operation, "_integer_bounds_errors": target_integer_bounds_errors,
            "_integer_bounds_errors_for_expression": target_bounds_errors_for_expression,
            "_cpp_integer_type_for_range": target_type_for_range, "_cpp_integer_type_for_enum": target_type_for_enum}
